@@ -358,6 +358,11 @@ func (l *Layout) Write(p Prog) string {
 			b.WriteString(l.sp())
 			if st.Str != nil {
 				b.WriteString(`"` + *st.Str + `"`)
+				// blanks left after the closing quote are accepted by the pinned grammar when the next
+				// statement is another assignment (before a task, a comment or the end they are an error)
+				if !l.Small && i+1 < len(p.Stmts) && p.Stmts[i+1].Kind == "assign" && l.C.Choose(4) == 0 {
+					b.WriteString(l.sp1())
+				}
 			} else {
 				b.WriteString(st.Call)
 				b.WriteString(l.sp())
